@@ -3,10 +3,14 @@ package main
 
 import (
 	"fmt"
+	"regexp"
+	"strings"
 
 	"elaverif/extract/ex"
 	"elaverif/extract/wiretok"
 )
+
+var literalSize = regexp.MustCompile(`, [0-9]+\)$`)
 
 func main() {
 	ex.Header("C23", "ElaVerif.Lemmas.WireTokens")
@@ -25,6 +29,17 @@ func main() {
 		wiretok.Pair("wallet.CoinsCheckPoint", "wallet", "CoinsCheckPoint", "Serialize", "Deserialize"),
 	}
 	wiretok.Print("streams", ss)
+	wiretok.PrintMakes("makes", ss)
+	// make(…) calls of the checkpoint readers whose size / capacity argument is not an integer literal
+	var sized []string
+	for _, st := range ss {
+		for _, mk := range st.Makes {
+			if strings.Contains(mk, ",") && !literalSize.MatchString(mk) {
+				sized = append(sized, st.Name+": "+mk)
+			}
+		}
+	}
+	ex.DefStrList("sizedMakes", sized)
 
 	// field coverage: (type, all struct fields, fields mentioned by Serialize, by Deserialize)
 	type ft struct{ name, dir, recv string }
